@@ -21,7 +21,7 @@ RULE = ('documents of the generated grammar (article/book; sectioning to 4 level
 ASSUMPTIONS = ['ground truth by construction (pvmon/gen/docs.py): marker order = depth-first, arguments before content',
                'generated documents are well-formed LaTeX (sectioning at top level only, balanced groups, no fragile commands in arguments)']
 DECIDING_REACH = ['TeX.parse', 'Macro.paragraphs', 'Environment.digest', 'SectionUtils.digest', 'Node.normalize']
-DECIDING_COUNTERS = {'markers_compared': 1000}
+DECIDING_COUNTERS = {'markers_compared': 1000, 'repeated_runs_checked': 50}
 
 
 def budget(tier):
@@ -44,11 +44,48 @@ def anchors():
             'NoCharSubEnvironment.normalize': plasTeX.NoCharSubEnvironment.normalize}
 
 
+TWIN_BODIES = ['Zt%dy--z', 'Zt%dy---z', "Zt%dy's", "``Zt%dy''", 'a--Zt%dy', "Zt%dy"]
+SUBS = [('``', chr(8220)), ("''", chr(8221)), ('"`', chr(8222)), ('"\'', chr(8220)), ('`', chr(8216)), ("'", chr(8217)), ('---', chr(8212)), ('--', chr(8211))]
+
+
+def subst(t):
+    for a, b in SUBS:
+        t = t.replace(a, b)
+    return t
+
+
+def twins(r):
+    """The same run of characters once as running text and once as verbatim/mathematics (each a complete text node):
+    -> (body_prefix, body_suffix, [[run, expected running text, expected literal, literal form]])"""
+    pre, suf, exp = '', '', []
+    for k in range(r.choice([1, 1, 2])):
+        body = r.choice(TWIN_BODIES) % (k + 1)
+        lit_form = r.choice(['verb', 'verb', 'math', 'verbatim']) if "'" not in body and '`' not in body else r.choice(['verb', 'verb', 'verbatim'])
+        running = '\\%s{%s}' % (r.choice(['emph', 'textbf', 'mbox', 'textit']), body)
+        lit = {'verb': '\\verb|%s|' % body, 'math': '$%s$' % body, 'verbatim': '\n\\begin{verbatim}\n%s\n\\end{verbatim}\n' % body}[lit_form]
+        place = r.choice(['run-first-same-par', 'lit-first-same-par', 'run-in-prefix', 'lit-in-prefix'])
+        if place == 'run-first-same-par':
+            pre += 'T %s T %s T\n\n' % (running, lit)
+        elif place == 'lit-first-same-par':
+            pre += 'T %s T %s T\n\n' % (lit, running)
+        elif place == 'run-in-prefix':
+            pre += 'T %s T\n\n' % running
+            suf += '\n\nT %s T\n' % lit
+        else:
+            pre += 'T %s T\n\n' % lit
+            suf += '\n\nT %s T\n' % running
+        exp.append([body, subst(body), body, lit_form, place])
+    return pre, suf, exp
+
+
 def cases(seed, tier, shard, nshards):
     for i in common.sharded(budget(tier)['n'], shard, nshards):
         r = common.rng_for(seed, PROP, i)
         d = docs.gen(r, probes=True, depth=r.choice([2, 3, 3, 4]), parts=False, eqnarray=r.random() < 0.3, maxsec=r.choice([3, 6, 10]))
-        yield {'src': docs.latex(d, tight=r.random() < 0.3), 'order': docs.markers(d), 'probes': probes_of(d), 'verbs': verbs_of(d), 'cls': d['cls']}
+        tight = r.random() < 0.3
+        pre, suf, tw = twins(r) if r.random() < 0.4 else ('', '', [])
+        yield {'src': docs.latex(d, body_prefix=pre, body_suffix=suf, tight=tight), 'order': docs.markers(d), 'probes': probes_of(d), 'verbs': verbs_of(d), 'cls': d['cls'],
+               'twins': tw}
 
 
 def probes_of(d):
@@ -141,6 +178,21 @@ def run(case, st):
     for body in case['verbs']:
         if ('--' in body or '``' in body or "''" in body) and body not in whole:
             bad.append(('charsub-in-verbatim', 'verbatim material %r not found literally in the document text' % body))
+    # the same run of characters as running text and as verbatim/mathematics
+    for body, want_run, want_lit, form, place in case.get('twins', []):
+        tag = body[:body.index('y') + 1].lstrip('`').replace('a--', '')
+        hits = [(t, p) for t, p in w.twins if tag in t]
+        st.counters['repeated_runs_checked'] += 1
+        st.feature('repeated-run', '%s/%s' % (form, place))
+        lits = [(t, p) for t, p in hits if any(x in ('verb', 'verbatim', 'math') for x in p)]
+        runs = [(t, p) for t, p in hits if (t, p) not in lits]
+        if len(lits) != 1 or len(runs) != 1:
+            bad.append(('repeated-run-not-found', 'run %r: %d literal and %d running text nodes (%r)' % (body, len(lits), len(runs), hits[:4])))
+            continue
+        if lits[0][0].strip() != want_lit:
+            bad.append(('charsub-in-verbatim', '%s material %r reads %r in the tree (the same run occurs as running text; %s)' % (form, body, lits[0][0], place)))
+        if runs[0][0] != want_run:
+            bad.append(('charsub-missing', 'running text %r reads %r instead of %r (the same run occurs as %s material; %s)' % (body, runs[0][0], want_run, form, place)))
     for kind, msg in bad[:4]:
         st.violation(kind, case, msg + '\n' + src[:1200])
     if len(doc.context.contexts) != 1:
